@@ -107,7 +107,18 @@ def coq_vop(op):
     return 'VOp (%s)' % coq_op(op)
 
 
+RELS = ['=', '<', '>', '<=', '>=', '<>']
+REL_FN = ['eq', 'lt', 'gt', 'lte', 'gte', 'neq']
+
+
+def rel_holds(rel, a, b):
+    return [a == b, a < b, a > b, a <= b, a >= b, a != b][rel]
+
+
 def coq_op(op):
+    if op[0] == 'x':
+        form = {'sub': 'XSub', 'cmp': '(XCmp %d)' % op[2], 'cmpsub': '(XCmpSub %d)' % op[2]}[op[1]]
+        return 'OExpr %s [%s]' % (form, '; '.join('None' if d is None else '(Some %s)' % coq_val(d) for d in op[3]))
     if op[0] == 'r':
         return 'ORnd None'
     if op[0] == 'ra':
@@ -190,14 +201,17 @@ class C39(core.Check):
             name, idx = var_name(i, val, False)
             impl.memory.set_variable(name, idx, self._value(impl, val))
 
-    def _apply_var(self, impl, r, op, vars_):
+    def _apply_var(self, impl, r, op, vars_, held=None):
         """RND(X) / RANDOMIZE X with X a real variable or array element in the live memory: the callee is
         handed the view the expression parser would hand it; afterwards the variable is read back."""
         name, idx = var_name(op[1], vars_[op[1]], False)
         view = impl.memory.view_or_create_variable(name, idx)
         try:
             if op[0] == 'rv':
-                res = [0] + list(bytearray(r.rnd_([view]).to_bytes()))
+                v = r.rnd_([view])
+                if held is not None:
+                    held.append(v)
+                res = [0] + list(bytearray(v.to_bytes()))
             else:
                 impl.randomize_([view])
                 res = [0]
@@ -206,13 +220,26 @@ class C39(core.Check):
         obs = list(bytearray(impl.memory.view_or_create_variable(name, idx).to_bytes()))
         return res + [r._seed, len(obs)] + obs
 
-    def _apply(self, impl, r, op):
-        """Run one operation on the real objects; canonical result + seed."""
+    def _apply(self, impl, r, op, held=None):
+        """Run one operation on the real objects; canonical result + seed.
+        held: list collecting the value objects RND handed out (the caller keeps them, as an expression
+        evaluator keeps a pending operand)."""
+        from pcbasic.basic.values import values as V
         try:
-            if op[0] == 'r':
-                res = [0] + list(bytearray(r.rnd_([None]).to_bytes()))
-            elif op[0] == 'ra':
-                res = [0] + list(bytearray(r.rnd_([self._value(impl, op[1])]).to_bytes()))
+            if op[0] in ('r', 'ra'):
+                v = r.rnd_([None if op[0] == 'r' else self._value(impl, op[1])])
+                if held is not None:
+                    held.append(v)
+                res = [0] + list(bytearray(v.to_bytes()))
+            elif op[0] == 'x':
+                # the draws of one expression, left to right, all still pending when the operator is applied
+                d = [r.rnd_([None if a is None else self._value(impl, a)]) for a in op[3]]
+                if op[1] == 'sub':
+                    res = [0] + list(bytearray(V.sub(d[0], d[1]).to_bytes()))
+                elif op[1] == 'cmp':
+                    res = [0, getattr(V, REL_FN[op[2]])(d[0], d[1]).to_int()]
+                else:
+                    res = [0, getattr(V, REL_FN[op[2]])(d[0], V.sub(d[1], d[2])).to_int()]
             elif op[0] == 'z':
                 impl.randomize_([self._value(impl, op[1])])
                 res = [0]
@@ -270,6 +297,13 @@ class C39(core.Check):
                                   ['z', i(32767)]]},
             {'k': 'sess', 'ops': [['r'], ['ra', i(0)], ['z', i(5)], ['r'], ['c', 'RUN'], ['r'],
                                   ['c', 'CLEAR'], ['ra', ['s', [0, 0, 192, 129]]], ['c', 'NEW'], ['r']]},
+            # seed C39d: RND-RND, RND=RND, RND(-3)-RND, RND<(RND-RND): draws combined in one expression
+            {'k': 'sess', 'ops': [['x', 'sub', 0, [None, None]], ['x', 'cmp', 0, [None, None]],
+                                  ['x', 'sub', 0, [['s', [0, 0, 192, 130]], None]], ['x', 'cmp', 5, [None, None]],
+                                  ['x', 'cmpsub', 1, [None, None, None]], ['x', 'cmp', 1, [None, ['i', 0]]], ['r']]},
+            {'k': 'hist', 'ops': [['r'], ['r'], ['x', 'sub', 0, [None, None]], ['x', 'cmp', 0, [None, None]],
+                                  ['x', 'sub', 0, [['s', [0, 0, 192, 130]], None]],
+                                  ['x', 'cmpsub', 2, [None, None, None]], ['ra', ['i', 0]], ['r']]},
             # seed C39c: X=-3: A=RND(X): B=RND: C=RND(X): D=RND and the same with an array element; X read back
             {'k': 'hist', 'vars': [['s', [0, 0, 192, 130]], ['s', [0, 0, 192, 130]], ['i', -3],
                                    ['d', [0, 0, 0, 0, 0, 0, 192, 130]]],
@@ -407,13 +441,30 @@ class C39(core.Check):
                 ops.append(['z', v])
             else:
                 ops.append(['c', rng.choice(['CLEAR', 'RUN', 'NEW'])] if sess else ['c'])
+        # expressions that combine several draws (first draw still pending while the next is made)
+        for j in range(len(ops)):
+            if rng.random() < 0.12:
+                ops.insert(rng.randrange(len(ops) + 1), self._rand_expr(rng))
         return ops
+
+    def _rand_expr(self, rng):
+        def draw():
+            r = rng.random()
+            if r < 0.7:
+                return None
+            if r < 0.82:
+                return self._rand_val(rng, True, False)
+            if r < 0.9:
+                return rng.choice([['i', 0], ['s', [0, 0, 0, 0]]])
+            return self._rand_val(rng, False, False)
+        form = rng.choice(['sub', 'sub', 'cmp', 'cmp', 'cmpsub'])
+        return ['x', form, rng.randrange(6) if form != 'sub' else 0, [draw() for _ in range(3 if form == 'cmpsub' else 2)]]
 
     def gen_cases(self, n):
         rng = self.rng
         thorough = self.tier == 'thorough'
         hist = {'hist': 0, 'sess': 0, 'scale': 0, 'sweep': 0, 'walk': 0, 'rzint': 0,
-                'op_r': 0, 'op_ra': 0, 'op_z': 0, 'op_c': 0, 'op_rv': 0, 'op_zv': 0,
+                'op_r': 0, 'op_ra': 0, 'op_z': 0, 'op_c': 0, 'op_rv': 0, 'op_zv': 0, 'op_x': 0,
                 'arg_i': 0, 'arg_s': 0, 'arg_d': 0, 'arg_$': 0, 'var_i': 0, 'var_s': 0, 'var_d': 0,
                 'cases_with_variables': 0, 'variable_used_again': 0}
         light, heavy = [], []
@@ -501,11 +552,15 @@ class C39(core.Check):
                 vars_ = case.get('vars', [])
                 self._set_vars(impl, vars_)
                 out = []
+                held = []
                 for op in case['ops']:
                     if op[0] in ('rv', 'zv'):
-                        out += self._apply_var(impl, r, op, vars_)
+                        out += self._apply_var(impl, r, op, vars_, held)
                     else:
-                        out += self._apply(impl, r, op)
+                        out += self._apply(impl, r, op, held)
+                # every value handed out is still held by the caller: read them all again at the end
+                for v in held:
+                    out += list(bytearray(v.to_bytes()))
                 return out
             if k == 'sess':
                 return self._impl_sess(case)
@@ -575,18 +630,18 @@ class C39(core.Check):
             def bytes_expr(val):
                 return '+'.join('CHR$(%d)' % b for b in val[1])
 
-            def arg_text(val):
+            def arg_text(val, slot=''):
                 if val[0] == 'i':
                     # (a negative literal is unary minus applied to a literal: values.neg promotes to Single)
                     if 0 <= val[1] < 32768 and (val[1] % 2 == 0):
                         return '%d' % val[1]
-                    s.execute('QI%%=%d' % val[1])
-                    return 'QI%'
+                    s.execute('QI%s%%=%d' % (slot, val[1]))
+                    return 'QI%s%%' % slot
                 if val[0] == 's':
-                    s.execute('QS!=CVS(%s)' % bytes_expr(val))
-                    return 'QS!'
-                s.execute('QD#=CVD(%s)' % bytes_expr(val))
-                return 'QD#'
+                    s.execute('QS%s!=CVS(%s)' % (slot, bytes_expr(val)))
+                    return 'QS%s!' % slot
+                s.execute('QD%s#=CVD(%s)' % (slot, bytes_expr(val)))
+                return 'QD%s#' % slot
             vars_ = case.get('vars', [])
 
             def lit(val):
@@ -619,6 +674,25 @@ class C39(core.Check):
                     out.append(rnd()._seed)
                     out += observe(op[1])
                     continue
+                if op[0] == 'x':
+                    d = ['RND' if a is None else 'RND(%s)' % arg_text(a, str(j)) for j, a in enumerate(op[3])]
+                    if op[1] == 'sub':
+                        text = 'MKS$(%s-%s)' % (d[0], d[1])
+                    elif op[1] == 'cmp':
+                        text = '%s%s%s' % (d[0], RELS[op[2]], d[1])
+                    else:
+                        text = '%s%s(%s-%s)' % (d[0], RELS[op[2]], d[1], d[2])
+                    v = s.evaluate(text)
+                    if op[1] == 'sub':
+                        if not isinstance(v, bytes) or len(v) != 4:
+                            raise RuntimeError('evaluate(%s) -> %r' % (text, v))
+                        out += [0] + list(v)
+                    else:
+                        if v not in (0, -1):
+                            raise RuntimeError('evaluate(%s) -> %r' % (text, v))
+                        out += [0, int(v)]
+                    out.append(rnd()._seed)
+                    continue
                 if op[0] in ('r', 'ra'):
                     text = 'MKS$(RND)' if op[0] == 'r' else 'MKS$(RND(%s))' % arg_text(op[1])
                     v = s.evaluate(text)
@@ -644,9 +718,12 @@ class C39(core.Check):
     def model_term(self, case):
         k = case['k']
         if k in ('hist', 'sess'):
+            vs = '[%s]' % '; '.join(coq_val(v) for v in case.get('vars', []))
+            vops = '[%s]' % '; '.join(coq_vop(op) for op in case['ops'])
+            if k == 'hist':
+                return '(let st := %s in let ops := %s in vtrace seed0 st ops ++ vheld seed0 st ops)' % (vs, vops)
             if 'vars' in case:
-                return '(vtrace seed0 [%s] [%s])' % ('; '.join(coq_val(v) for v in case['vars']),
-                                                    '; '.join(coq_vop(op) for op in case['ops']))
+                return '(vtrace seed0 %s %s)' % (vs, vops)
             return '(trace seed0 [%s])' % '; '.join(coq_op(op) for op in case['ops'])
         if k == 'scale':
             return '(flat_map rnd_bytes %s)' % core.zl(case['seeds'])
@@ -676,7 +753,7 @@ class C39(core.Check):
         for op in case['ops']:
             start = i
             if out[i] == 0:
-                nb = 4 if op[0] in ('r', 'ra', 'rv') else 0
+                nb = 4 if (op[0] in ('r', 'ra', 'rv') or op[:2] == ['x', 'sub']) else 1 if op[0] == 'x' else 0
                 err, b, after = None, out[i + 1:i + 1 + nb], out[i + 1 + nb]
                 i += nb + 2
             else:
@@ -687,15 +764,16 @@ class C39(core.Check):
                 obs = out[i + 1:i + 1 + out[i]]
                 i += 1 + out[i]
             recs.append((start, op, err, b, after, obs))
+        recs.append(i)          # offset of the tail (hist: the held values read again)
         return recs
 
     @classmethod
     def _op_offsets(cls, case, out):
-        return [r[0] for r in cls._parse(case, out)]
+        return [r[0] for r in cls._parse(case, out)[:-1]]
 
     def _records(self, case, out):
         vars_ = case.get('vars', [])
-        return [(plain_op(op, vars_), err, b, after) for _, op, err, b, after, _ in self._parse(case, out)]
+        return [(plain_op(op, vars_), err, b, after) for _, op, err, b, after, _ in self._parse(case, out)[:-1]]
 
     def _analyse(self, case, out):
         """Direct reading of the property on an observed history.  Returns [(kind, message)],
@@ -705,7 +783,7 @@ class C39(core.Check):
         # an argument handed over in a variable is the same argument every time: the variable must still hold
         # what it was given (the analysis below reads every use of the variable as that value)
         vars_ = case.get('vars', [])
-        for n, (_, op, _, _, _, obs) in enumerate(self._parse(case, out)):
+        for n, (_, op, _, _, _, obs) in enumerate(self._parse(case, out)[:-1]):
             if obs is not None and obs != value_bytes(vars_[op[1]]):
                 viol.append(('other', 'op %d %s: the argument variable %s held %s before the call and %s after it'
                              % (n, json.dumps(op), var_name(op[1], vars_[op[1]], True),
@@ -719,6 +797,35 @@ class C39(core.Check):
             if err is not None:
                 if after != seed:
                     viol.append(('other', '%s: failed call changed the seed' % tag))
+                seed = after
+                continue
+            if op[0] == 'x':
+                # several draws in one expression: each is a value of the sequence in its own right
+                cur, vals = seed, []
+                for a in op[3]:
+                    v = None if a is None else arg_value(a)
+                    if a is None or v > 0:
+                        cur = (A * cur + C) % M24
+                    elif v < 0:
+                        cur = self._baseline(['ra', a])[-1]
+                    vals.append(cur)
+                if after != cur:
+                    viol.append(('other', '%s: seed %d after the expression, the draws lead to %d' % (tag, after, cur)))
+                if op[1] == 'sub':
+                    ok = len(b) == 4 and single_value(b) == Fraction(vals[0] - vals[1], M24)
+                    want = '(%d - %d)/2^24' % (vals[0], vals[1])
+                elif op[1] == 'cmp':
+                    want = -1 if rel_holds(op[2], vals[0], vals[1]) else 0
+                    ok = list(b) == [want]
+                    want = '%d (%d %s %d)' % (want, vals[0], RELS[op[2]], vals[1])
+                else:
+                    want = -1 if rel_holds(op[2], vals[0], vals[1] - vals[2]) else 0
+                    ok = list(b) == [want]
+                    want = '%d (%d %s %d - %d)' % (want, vals[0], RELS[op[2]], vals[1], vals[2])
+                if not ok:
+                    viol.append(('other', '%s: the draws of this expression are the sequence values %s/2^24, so it '
+                                 'is %s, but it gave %s' % (tag, vals, want, list(b))))
+                last = None
                 seed = after
                 continue
             if op[0] in ('r', 'ra'):
@@ -762,6 +869,16 @@ class C39(core.Check):
             if op[0] not in ('r', 'ra'):
                 last = None             # "the last value" is a value of the sequence since the last reseed
             seed = after
+        if case['k'] == 'hist':
+            # a value handed out stays that value: all of them, kept by the caller, read again at the end
+            tail = out[self._parse(case, out)[-1]:]
+            given = [(n, list(b)) for n, (op, err, b, _) in enumerate(self._records(case, out))
+                     if err is None and op[0] in ('r', 'ra')]
+            for j, (n, b) in enumerate(given):
+                if tail[4 * j:4 * j + 4] != b:
+                    viol.append(('other', 'op %d: RND handed out the value %s; kept by the caller it reads %s at the '
+                                 'end of the history (the value is not a value of its own)' % (n, b, tail[4 * j:4 * j + 4])))
+                    break
         return viol
 
     def _full_walk(self):
